@@ -73,9 +73,15 @@ def go_body(rng, recv, params, imports):
             calls.append((x, "Close"))
             stmts.append({"k": "defer", "recv": x, "fn": "Close"})
         elif r < 0.8:
-            lines.append("%s := %s" % (rng.choice(["v1", "v2", "tmp"]), rng.choice(["1", '"s"', (pkgs[0] + ".New()") if pkgs else "2"])))
-            lines.append("_ = " + lines[-1].split(" := ")[0])
-            stmts += [{"k": "assign"}, {"k": "assign"}]
+            if rng.random() < 0.4:
+                # assignments with several names: one call / map index / type assertion on the right, a swap, a blank name
+                lines.append(rng.choice(["n, err := strconv.Atoi(text)", "v, ok := registry[key]", "s, isStr := x.(string)", "a1, b1 := 1, 2",
+                                         "_, err2 := os.Open(name)", "lo, hi = hi, lo", "var q, w = 1, 2", "x1, y1, z1 := f3()"]))
+                stmts.append({"k": "assign"})
+            else:
+                lines.append("%s := %s" % (rng.choice(["v1", "v2", "tmp"]), rng.choice(["1", '"s"', (pkgs[0] + ".New()") if pkgs else "2"])))
+                lines.append("_ = " + lines[-1].split(" := ")[0])
+                stmts += [{"k": "assign"}, {"k": "assign"}]
         elif r < 0.9:
             lines.append("if true {\n\t}")
             stmts.append({"k": "other"})
